@@ -38,8 +38,11 @@ def run(ctx, replay=None):
     for _ in range(100 if ctx.tier == "quick" else 1000):
         g = [ctx.rng.randint(-4, 4) for _ in range(ctx.rng.randint(1, 6))]
         z = ctx.rng.randint(0, 5)
-        drag.append((g, z, D.run_drag(g, z)))
-        js.append({"kind": "drag", "g": g, "z": z})
+        # fitting factor, mobility and boundary energy (the prefactor of the curvature-driven rate) scale the drag term alike
+        alpha, M, gbe = ctx.rng.choice([1, 1, 2, 3]), ctx.rng.choice([1, 2]), ctx.rng.choice([1, 1, 2])
+        g = [alpha * M * gbe * v for v in g] if ctx.rng.random() < 0.5 else g
+        drag.append((g, z, D.run_drag(g, z, alpha, M, gbe)))
+        js.append({"kind": "drag", "g": g, "z": z, "k": alpha * M * gbe})
     os.environ["OROWANRULE"] = OROWAN_RULE
     exp, ress = eval_parallel("Strength_Eval", js, tag="strengtheval")
     for r in ress:
